@@ -204,6 +204,37 @@ theorem full_spectrum_sum {T M : Type} [Zero T] [AddCommMonoid M] (D start len :
   rw [Finset.sum_ite_eq]
   simp [hb]
 
+/-- the full-spectrum bin a hit stands for: the half-spectrum bin itself, or its mirror `D − idx` when
+the code conjugates (`X[D − b] = conj X[b]` for a real frame) -/
+def binOf (D : Nat) (h : Walk.Hit) : Nat := if h.conj then D - h.idx else h.idx
+
+theorem list_sum_map_range {M : Type} [AddCommMonoid M] (f : Nat → M) (n : Nat) :
+    ((List.range n).map f).sum = ∑ i ∈ Finset.range n, f i := by
+  induction n with
+  | zero => simp
+  | succ n ih => rw [List.range_succ, List.map_append, List.sum_append, ih, Finset.sum_range_succ]; simp
+
+/-- **coefficient = full-spectrum sum.** What `_compute_frame` accumulates for one filter — the sum,
+over the (half-spectrum bin, conj, tap) triples the loop visits, of a summand `ψ` of the full-spectrum
+bin and the tap — equals the sum over ALL `D` bins of `ψ b (H b)` with `H` the response rebuilt from
+the truncated response by the documented recipe (`ψ b 0 = 0`; at most `D` taps).  With
+`ψ b t = |X[b]·t|^p` this is the property's "sum over the full DFT spectrum of |DFT × H_i|^p". -/
+theorem walk_sum_eq_full_spectrum {T M : Type} [Zero T] [AddCommMonoid M] (D start len : Nat)
+    (hD : 0 < D) (hlen : len ≤ D) (tap : Nat → T) (ψ : Nat → T → M) (h0 : ∀ b, ψ b 0 = 0) :
+    ((Walk.run D start len).map fun h => ψ (binOf D h) (tap h.tap)).sum
+      = ∑ b ∈ Finset.range D, ψ b (rebuilt D start len tap b) := by
+  rw [walk_covers D start len hD, full_spectrum_sum D start len hD hlen tap ψ h0]
+  unfold Walk.spec
+  rw [List.map_map, list_sum_map_range]
+  apply Finset.sum_congr rfl
+  intro j _
+  have hb : (start + j) % D < D := Nat.mod_lt _ hD
+  simp only [Function.comp]
+  split
+  · simp [binOf]
+  · simp only [binOf, if_true]
+    congr 1; omega
+
 /-! ## default frame length -/
 
 /-- With `frame_length = max(support, ⌈2·rate / bw_min⌉) ≤ D` the DFT bin spacing `rate / D` is at
